@@ -34,6 +34,7 @@ int main(void)
         PLSYPredictorAllLV(xnew, m, pn, yall); RB(1, same_m(pn, cs)); RB(2, same_m(yall, cy));
         for(i_ = 0; i_ < other->row; i_++) for(j_ = 0; j_ < other->col; j_++) other->data[i_][j_] = 0.5*other->data[i_][j_] + 1.0 + (double)j_;
         PLSYPredictorAllLV(other, m, pn, yall); PLSYPredictorAllLV(xnew, m, pn, yall); RB(1, same_m(pn, cs)); RB(2, same_m(yall, cy));
+        junk_m(pn); junk_m(yall); PLSYPredictorAllLV(xnew, m, pn, yall); RB(1, same_m(pn, cs)); RB(2, same_m(yall, cy));
         initMatrix(&yy); PLSYPredictorAllLV(xnew, m, NULL, yy); RB(3, same_m(yy, cy)); DelMatrix(&yy);
         /* PLSYPredictor (one model size) into a reused output: predictions for 1..A latent variables in turn */
         { matrix *yp, *c1; size_t a_, A_ = m->b->size; initMatrix(&yp);
